@@ -171,8 +171,6 @@ Fixpoint hextile_tiles (fuel : nat) (bp w h tx ty : Z) (l : list Z) : pres unit 
             else next l3)))
   end.
 
-(* every tile consumes at least its subencoding byte: the stream length bounds the number of tiles *)
-Definition hextile_fuel (l : list Z) : nat := S (length l).
 
 Definition len32_body (l : list Z) : pres unit := pbind (u32 l) (fun n l1 => skip n l1).
 
@@ -187,7 +185,9 @@ Definition parse_hdr (l : list Z) : pres hdr :=
   pbind (u16 l3) (fun h l4 => pbind (u32 l4) (fun e l5 => POk (x, y, w, h, e) l5))))).
 
 (* everything after the 12-byte rectangle header *)
-Definition rect_payload (s : pst) (hd : hdr) (l5 : list Z) : pres (hdr * rect_kind * pst) :=
+(* [hf]: fuel for the Hextile tile walk.  Every tile consumes at least its subencoding byte, so any
+   number above the length of the stream being parsed suffices (parse_stream computes it once) *)
+Definition rect_payload (hf : nat) (s : pst) (hd : hdr) (l5 : list Z) : pres (hdr * rect_kind * pst) :=
     let '(x, y, w, h, e) := hd in
     let bp := bypp s in
     let ok (k : rect_kind) (s' : pst) (r : pres unit) : pres (hdr * rect_kind * pst) :=
@@ -205,7 +205,7 @@ Definition rect_payload (s : pst) (hd : hdr) (l5 : list Z) : pres (hdr * rect_ki
         ok RkPixel s (pbind (u32 l5) (fun n l6 => skip (bp + n * (bp + 8)) l6))
       else if e =? enc_CoRRE then
         ok RkPixel s (pbind (u32 l5) (fun n l6 => skip (bp + n * (bp + 4)) l6))
-      else if e =? enc_Hextile then ok RkPixel s (hextile_tiles (hextile_fuel l5) bp w h 0 0 l5)
+      else if e =? enc_Hextile then ok RkPixel s (hextile_tiles hf bp w h 0 0 l5)
       else if (e =? enc_Tight) || (e =? enc_TightPng) then ok RkPixel s (tight_body s e w h l5)
       else ok RkPixel s (len32_body l5)              (* Zlib, ZRLE, ZYWRLE, Ultra *)
     else if e =? enc_LastRect then
@@ -233,30 +233,30 @@ Definition rect_payload (s : pst) (hd : hdr) (l5 : list Z) : pres (hdr * rect_ki
     else if e =? enc_ServerIdentity then ok RkPseudo s (skip w l5)
     else PFail (Bad E_ENC_UNKNOWN).
 
-Definition parse_rect (s : pst) (l : list Z) : pres (hdr * rect_kind * pst) :=
-  pbind (parse_hdr l) (fun hd l5 => rect_payload s hd l5).
+Definition parse_rect (hf : nat) (s : pst) (l : list Z) : pres (hdr * rect_kind * pst) :=
+  pbind (parse_hdr l) (fun hd l5 => rect_payload hf s hd l5).
 
 (* exactly n rectangles *)
-Fixpoint parse_rects_n (n : nat) (s : pst) (l : list Z) (acc : list hdr) : pres (list hdr * pst) :=
+Fixpoint parse_rects_n (n : nat) (hf : nat) (s : pst) (l : list Z) (acc : list hdr) : pres (list hdr * pst) :=
   match n with
   | O => POk (rev acc, s) l
   | S k =>
-      pbind (parse_rect s l) (fun '(hd, kind, s') rest =>
+      pbind (parse_rect hf s l) (fun '(hd, kind, s') rest =>
         match kind with
         | RkLast => PFail (Bad E_LASTRECT_IN_COUNTED)
-        | _ => parse_rects_n k s' rest (hd :: acc)
+        | _ => parse_rects_n k hf s' rest (hd :: acc)
         end)
   end.
 
 (* rectangles until the LastRect marker (announced count 0xFFFF) *)
-Fixpoint parse_rects_last (fuel : nat) (s : pst) (l : list Z) (acc : list hdr) : pres (list hdr * pst) :=
+Fixpoint parse_rects_last (fuel : nat) (hf : nat) (s : pst) (l : list Z) (acc : list hdr) : pres (list hdr * pst) :=
   match fuel with
   | O => PFail NeedMore
   | S f =>
-      pbind (parse_rect s l) (fun '(hd, kind, s') rest =>
+      pbind (parse_rect hf s l) (fun '(hd, kind, s') rest =>
         match kind with
         | RkLast => POk (rev acc, s') rest
-        | _ => parse_rects_last f s' rest (hd :: acc)
+        | _ => parse_rects_last f hf s' rest (hd :: acc)
         end)
   end.
 
@@ -269,14 +269,14 @@ Inductive msg :=
 | MPalmResize (w h : Z)
 | MXvp (version code : Z).
 
-Definition parse_msg (s : pst) (l : list Z) : pres (msg * pst) :=
+Definition parse_msg (hf : nat) (s : pst) (l : list Z) : pres (msg * pst) :=
   pbind (u8 l) (fun t l1 =>
     if t =? s2c_FramebufferUpdate then
       pbind (u8 l1) (fun _pad l2 => pbind (u16 l2) (fun n l3 =>
         if n =? 65535 then
           if negb (pseudo_enabled s enc_LastRect) then PFail (Bad E_LASTRECT_NOT_ENABLED)
-          else pbind (parse_rects_last (S (length l3)) s l3 []) (fun '(rs, s') rest => POk (MFbu n rs true, s') rest)
-        else pbind (parse_rects_n (Z.to_nat n) s l3 []) (fun '(rs, s') rest => POk (MFbu n rs false, s') rest)))
+          else pbind (parse_rects_last hf hf s l3 []) (fun '(rs, s') rest => POk (MFbu n rs true, s') rest)
+        else pbind (parse_rects_n (Z.to_nat n) hf s l3 []) (fun '(rs, s') rest => POk (MFbu n rs false, s') rest)))
     else if t =? s2c_SetColourMapEntries then
       pbind (u8 l1) (fun _ l2 => pbind (u16 l2) (fun first l3 => pbind (u16 l3) (fun n l4 =>
         if p_truecolour s then PFail (Bad E_CMAP_TRUECOLOUR)
@@ -307,22 +307,22 @@ Definition parse_msg (s : pst) (l : list Z) : pres (msg * pst) :=
 (* the whole available stream: complete messages, then the unparsed remainder *)
 Inductive stream_end := SeClean | SeIncomplete (rest : list Z) | SeBad (code : Z) (rest : list Z).
 
-Fixpoint parse_s2c (fuel : nat) (s : pst) (l : list Z) (acc : list msg) : list msg * pst * stream_end :=
+Fixpoint parse_s2c (fuel : nat) (hf : nat) (s : pst) (l : list Z) (acc : list msg) : list msg * pst * stream_end :=
   match l with
   | [] => (rev acc, s, SeClean)
   | _ =>
     match fuel with
     | O => (rev acc, s, SeBad E_FUEL l)
     | S f =>
-      match parse_msg s l with
-      | POk (m, s') rest => parse_s2c f s' rest (m :: acc)
+      match parse_msg hf s l with
+      | POk (m, s') rest => parse_s2c f hf s' rest (m :: acc)
       | PFail NeedMore => (rev acc, s, SeIncomplete l)
       | PFail (Bad c) => (rev acc, s, SeBad c l)
       end
     end
   end.
 
-Definition parse_stream (s : pst) (l : list Z) := parse_s2c (S (length l)) s l [].
+Definition parse_stream (s : pst) (l : list Z) := parse_s2c (S (length l)) (S (length l)) s l [].
 
 (* ---------------------------------------------------------------- handshake *)
 Record screen_id := mkScreen {
